@@ -131,3 +131,91 @@ def twin_ok_reached(status: int, json_ok: bool, kind: int, has_data: bool, data_
     body = LazyBody(kind, has_data, data_kind, has_errors, n_err, e0, e1, extra)
     got = run_method("asyn", StubResponse(status, True if json_ok else False, body))
     return not (got[0] == "ok")
+
+
+# ---- real transport: a client built WITHOUT an injected http client, against an HTTP server on the loopback interface -----------
+def real_status_case(which: int, status: int):
+    """-> (status, detail).  The server answers `status` (with a Location header for 3xx) on /graphql and 200 + data elsewhere;
+    every non-2xx answer must surface as GraphQLClientHttpError carrying that status (the transport must not follow redirects or
+    retry on its own)."""
+    import asyncio
+    import http.server
+    import json
+    import threading
+
+    from ariadne_codegen.client_generators.dependencies import async_base_client, async_base_client_open_telemetry, base_client, base_client_open_telemetry
+    from ariadne_codegen.client_generators.dependencies.exceptions import GraphQLClientHttpError
+
+    cls = [base_client.BaseClient, async_base_client.AsyncBaseClient, base_client_open_telemetry.BaseClientOpenTelemetry,
+           async_base_client_open_telemetry.AsyncBaseClientOpenTelemetry][which]
+    hits = []
+
+    class H(http.server.BaseHTTPRequestHandler):
+        def do_POST(self):  # noqa: N802
+            self.rfile.read(int(self.headers.get("Content-Length") or 0))
+            hits.append(self.path)
+            if self.path == "/graphql":
+                self.send_response(status)
+                if 300 <= status < 400:
+                    self.send_header("Location", "/elsewhere")
+                body = b'{"data": {"a": 0}}'
+            else:
+                self.send_response(200)
+                body = b'{"data": {"a": 1}}'
+            self.send_header("Content-Type", "application/json")
+            self.send_header("Content-Length", str(len(body)))
+            self.end_headers()
+            self.wfile.write(body)
+
+        def log_message(self, *a):
+            pass
+
+    try:
+        srv = http.server.HTTPServer(("127.0.0.1", 0), H)
+    except OSError as e:
+        return "no_loopback", str(e)
+    t = threading.Thread(target=srv.serve_forever, daemon=True)
+    t.start()
+    try:
+        url = f"http://127.0.0.1:{srv.server_address[1]}/graphql"
+        c = cls(url=url)
+        try:
+            if which in (1, 3):
+                async def go():
+                    r = await c.execute("query Q { a }", "Q", {})
+                    return c.get_data(r)
+
+                data = asyncio.run(go())
+            else:
+                data = c.get_data(c.execute("query Q { a }", "Q", {}))
+            outcome = ("data", data)
+        except GraphQLClientHttpError as e:
+            outcome = ("http", e.status_code)
+        except Exception as e:  # noqa: BLE001
+            outcome = ("other", type(e).__name__)
+    finally:
+        srv.shutdown()
+        srv.server_close()
+    want = ("data", {"a": 0}) if 200 <= status <= 299 else ("http", status)
+    if outcome != want or hits != ["/graphql"]:
+        return "failed", f"status {status}: outcome {outcome}, requests {hits}"
+    return "ok", ""
+
+
+REAL_STATUSES = [200, 201, 301, 302, 307, 308, 404, 500]
+
+
+def check_real_transport_status(which: int, si: int) -> bool:
+    """
+    post: _
+    """
+    from harness._h import NoTracing
+
+    w, s = pick(which, 4), REAL_STATUSES[pick(si, len(REAL_STATUSES))]
+    with NoTracing():
+        with opened_auditwall():
+            try:
+                st, _detail = real_status_case(w, s)
+            except Exception:  # noqa: BLE001
+                st = "failed"
+    return st in ("ok", "no_loopback")
